@@ -22,6 +22,9 @@ CHECKS = {
  "C06": ("E2-shape-lattice", "the same exhaustive graph families, literals with every escape-relevant code point, and a limits matrix, compared byte for byte with an independent implementation of RDFC-1.0 written from the Recommendation",
          "Document (SHA-256 and SHA-384) and issued identifiers (through their effect on the input) equal those of the reference on every enumerated graph; unsupported inputs are refused with the right error; every (depth factor, permutation limit) setting gives the same document or a ToxicGraph error justified by the reference's own recursion-depth / group-size counters.",
          "The reference's reading of the Recommendation (assumptions A-C06-1/2, validated on the Recommendation's worked examples); automorphic blank nodes may be issued in any order (compared through the resulting document).", "DESIGN.md §4 C06, Appendix A"),
+ "C07": ("E2-shape-lattice", "exhaustive enumeration of generalized datasets up to k quads over a finite universe x all blank-node label bijections x statement orders x container pairs, and all single-edit neighbours",
+         "For every enumerated dataset the test answers true, in both argument orders and across container types, for every relabelled and reordered copy (blank nodes inside quoted triples and as graph names included), and false for every single-edit neighbour that differs in size, blank node count or bnode-blanked statements.",
+         "Small-scope hypothesis (<= 2/3 quads, <= 4 blank nodes); false is only demanded where the property demands it.", "DESIGN.md §4 C07"),
  "C09": ("E3-product-automaton", "product of the DFA determinised from the crate's regex source with the DFA of the RFC 3987 ABNF (all strings), witness replay per product edge; bounded exhaustive string and (base, reference) pair enumeration against RFC 3986 5.2",
          "Language equality of the validator with RFC 3987 is decided for strings of every length by exploring all reachable product states; the model is bound to the code by construction (built from the crate's public regex source at run time) and by replaying a witness per product edge through every validating entry point. Base conversion, Namespace::get and resolution are checked exhaustively over all strings up to a length and all pairs of a generated IRI set.",
          "regex-automata determinisation; ABNF transcription (cross-checked against oxiri); RFC 3986 5.2 reference (validated on the 42 examples of 5.4); bounds of the string/pair enumerations.", "DESIGN.md §4 C09"),
